@@ -50,6 +50,8 @@ structure State where
   destroyed : List Nat           -- ghost: ids whose bptk object got `destroy()`, in call order
   restored : List Nat            -- ghost: ids lazily restored, in order
   next : Nat                     -- ghost: number of instances ever created (ids are 0,1,2,…)
+  dropped : List Nat := []       -- ghost (wave 2): ids whose bptk object was dropped WITHOUT `destroy()`
+                                 -- (`stop-instance`, a live entry overwritten by `load-state`)
 deriving Repr
 
 def State.init : State := { insts := [], stored := [], destroyed := [], restored := [], next := 0 }
@@ -152,5 +154,90 @@ def isTrigger (c : Cfg) (s : State) (k : Nat) : Ev → Bool
   | .fullMetrics => true
   | .access j _ => j != k && (hasId s j || (lookupStored s.stored j).isSome)
   | .keepAlive j => j != k && (hasId s j || (c.keepAliveRestores && (lookupStored s.stored j).isSome))
+
+/-! ### wave 2 — `stop-instance`, `save-state`, `load-state`
+
+* `stop-instance` (`_stop_instance_resource`): `_delete_instance` (the entry is deleted WITHOUT `destroy()`,
+  no timestamp update, no sweep) and `adapter.delete_instance` (the state file is removed); always 200.
+* `save-state`: `get_instance_states()` deep-copies every `session_state` and sets `["lock"]` — it raises
+  (HTTP 500, nothing written) when some instance has no session; otherwise every live instance is written
+  to the adapter.  No sweep, no timestamp update.
+* `load-state`: every stored instance is reconstructed with `time = now` and the stored timeout — an absent
+  one is added (a restore), a LIVE one is overwritten in place (its old bptk object is dropped without
+  `destroy()`).  No sweep.
+The events of wave 1 are embedded by `Ev2.old`; `step2`/`run2` extend `step`/`run`. -/
+
+inductive Ev2 where
+  | old (e : Ev)
+  | stop (id : Nat)
+  | saveState
+  | loadState
+deriving DecidableEq, Repr
+
+def dropStored (st : List (Nat × Nat)) (k : Nat) : List (Nat × Nat) := st.filter (fun p => p.1 != k)
+
+def stopInst (s : State) (k : Nat) : State :=
+  { s with insts := s.insts.filter (fun i => !(i.id == k))
+           stored := dropStored s.stored k
+           dropped := s.dropped ++ (s.insts.filter (fun i => i.id == k)).map (·.id) }
+
+def saveState (s : State) : State × Bool :=
+  if s.insts.all (·.sess) then
+    ({ s with stored := (s.insts.map (fun i => (i.id, i.timeout))).reverse ++ s.stored }, true)
+  else (s, false)
+
+def replaceInst (n : Inst) (i : Inst) : Inst := if i.id = n.id then n else i
+
+def loadOne (now : Nat) (s : State) (kτ : Nat × Nat) : State :=
+  let n : Inst := { id := kτ.1, last := now, timeout := kτ.2, sess := true }
+  if hasId s kτ.1 then
+    { s with insts := s.insts.map (replaceInst n), restored := s.restored ++ [kτ.1], dropped := s.dropped ++ [kτ.1] }
+  else { s with insts := s.insts ++ [n], restored := s.restored ++ [kτ.1] }
+
+/-- the stored instances, by ascending id (the directory listing order is not part of the model: the
+harness compares the live set by id) -/
+def storedIds (s : State) : List (Nat × Nat) :=
+  (List.range s.next).filterMap (fun k => (lookupStored s.stored k).map (fun τ => (k, τ)))
+
+def loadState (s : State) (now : Nat) : State := (storedIds s).foldl (loadOne now) s
+
+def step2 (c : Cfg) (s : State) (now : Nat) : Ev2 → State × Bool
+  | .old e => step c s now e
+  | .stop k => (stopInst s k, true)
+  | .saveState => saveState s
+  | .loadState => (loadState s now, true)
+
+def run2 (c : Cfg) (s : State) : List (Nat × Ev2) → State
+  | [] => s
+  | (t, e) :: rest => run2 c (step2 c s t e).1 rest
+
+def wellTimed2 (t0 : Nat) : List (Nat × Ev2) → Bool
+  | [] => true
+  | (t, _) :: rest => decide (t0 ≤ t) && wellTimed2 t rest
+
+def endTime2 (t0 : Nat) : List (Nat × Ev2) → Nat
+  | [] => t0
+  | (t, _) :: rest => endTime2 t rest
+
+def isTrigger2 (c : Cfg) (s : State) (k : Nat) : Ev2 → Bool
+  | .old e => isTrigger c s k e
+  | _ => false          -- stop-instance, save-state, load-state do not sweep
+
+/-! ### wave 2 — timeouts the endpoint accepts beyond its contract (negative, fractional)
+
+`/start-instance` passes any JSON numbers to `timedelta(**timeout)`.  Values are modelled in QUARTERS of a
+unit (`q/4`): the sum is exact, `timedelta` rounds it once, half to even, to whole microseconds.  A negative
+total behaves as 0 (`now ≥ last + timeout` holds at once): the lifetime machine runs on the clamped value. -/
+
+def roundHalfEvenDiv4 (z : Int) : Int :=
+  let q := z / 4        -- floor
+  let r := z % 4        -- 0..3
+  if r < 2 then q else if r > 2 then q + 1 else (if q % 2 = 0 then q else q + 1)
+
+/-- seven unit values in quarters ↦ `timedelta(...)` in microseconds (signed) -/
+def quarterMicros (w d h m sec ms us : Int) : Int :=
+  roundHalfEvenDiv4 ((((((w * 7 + d) * 24 + h) * 60 + m) * 60 + sec) * 1000000) + ms * 1000 + us)
+
+def clampTimeout (z : Int) : Nat := z.toNat
 
 end Bptk.C17
